@@ -3,7 +3,7 @@
 # scratch worktree (demo fails with the change, passes without, the packages' existing tests pass with it), stores it under
 # /verif/seeded/<ID>[-name]/ and runs the check against it.
 set -u
-ID=$1; NAME=${2:-$ID}; SRC=/tmp/seed_$ID; OUT=/verif/seeded/$NAME
+ID=$1; NAME=${2:-$ID}; SRC=${3:-/tmp/seed_$ID}; OUT=/verif/seeded/$NAME
 [ -d "$SRC" ] || { echo "no $SRC"; exit 2; }
 mkdir -p "$OUT"
 git -C "$SRC" diff > "$OUT/patch.diff"
